@@ -152,9 +152,9 @@ type Chain struct {
 
 func NewChain(cfg *params.ChainConfig) *Chain { return &Chain{Cfg: cfg, eng: ethash.NewFaker()} }
 
-func (c *Chain) Engine() consensus.Engine                             { return c.eng }
-func (c *Chain) Config() *params.ChainConfig                          { return c.Cfg }
-func (c *Chain) CurrentHeader() *types.Header                         { return nil }
-func (c *Chain) GetHeader(common.Hash, uint64) *types.Header          { return nil }
-func (c *Chain) GetHeaderByNumber(uint64) *types.Header               { return nil }
-func (c *Chain) GetHeaderByHash(common.Hash) *types.Header            { return nil }
+func (c *Chain) Engine() consensus.Engine                    { return c.eng }
+func (c *Chain) Config() *params.ChainConfig                 { return c.Cfg }
+func (c *Chain) CurrentHeader() *types.Header                { return nil }
+func (c *Chain) GetHeader(common.Hash, uint64) *types.Header { return nil }
+func (c *Chain) GetHeaderByNumber(uint64) *types.Header      { return nil }
+func (c *Chain) GetHeaderByHash(common.Hash) *types.Header   { return nil }
